@@ -76,7 +76,19 @@ func main() {
 					}
 				}
 			}()
+			props.SetSubject(prog)
 			fn(c)
+			if *tier == "thorough" {
+				c.Rule("CONFIG", "the same rules on the js/wasm build configuration (properties with a wasm entry point)", 0)
+				c.Rule("CONTROL", "positive controls: seeded changes applied in memory must be reported", 0)
+				base := map[string]string{}
+				for _, o := range c.Obligations() {
+					if !o.OK {
+						base[o.Rule+"|"+o.Key] = o.Msg
+					}
+				}
+				thorough(c, strings.ToUpper(id), *repo, *verif, base)
+			}
 		}()
 		if *list {
 			c.Dump()
